@@ -58,7 +58,7 @@ OutFormat(spell) ==
   CASE spell \in {"hex6", "hex3", "hexnohash", "hexupper"} -> "hex"
     [] spell \in {"rgbfn", "rgbpct", "rgbfnsub"} -> "rgbfn"          \* (...sub: the same string as an instance of a str subclass)
     [] spell \in {"hslfn", "hslodd", "hslfnsub"} -> "hslfn"
-    [] spell \in {"tuple", "list", "tuplesub", "listsub"} -> "tuple"      \* subclasses (named tuples ...) are tuples / lists
+    [] spell \in {"tuple", "list", "tuplesub", "listsub", "fractuple"} -> "tuple"      \* subclasses (named tuples ...) are tuples / lists
     [] spell \in {"named", "rgbafn", "hslafn", "rgbatuple", "rgba3fn"} -> "hex"       \* rgba3fn: rgba() written without the alpha
     [] OTHER -> "other"
 ====
